@@ -421,6 +421,7 @@ def correspond(ctx):
             want.append((s.name, p, vals, exp, frames[0] if frames else []))
     path = os.path.join(vlib.LEAN, 'IRGen', 'IrpRun.lean')
     open(path, 'w').write('\n'.join(lines) + '\n')
+    vlib.lake_build(['IRGen.Irp'])      # the aggregate module IrpRun imports (lake only built its parts so far)
     rc, out, err = vlib.run(['lake', 'env', 'lean', path], cwd=vlib.LEAN, timeout=1200)
     got = [l[2:].split() for l in out.splitlines() if l.startswith('R ')]
     if rc != 0 or len(got) != len(want):
